@@ -666,7 +666,16 @@ def main(run):
     import time as _t
     T0 = _t.time()
     tm = run.extra.setdefault("phase_s", {})
-    FIXED["v"] = bool(C18_rules.detect_variant())
+    variant = C18_rules.detect_variant()
+    if variant is None:
+        # the source of `indexed` matches neither known shape (T1 reports the broken tie below): pick the
+        # model variant by behaviour, so that the correspondence and the search stay meaningful
+        try:
+            variant = real_estimate(witness_case()) >= 3
+        except Exception:     # noqa: BLE001
+            variant = False
+        run.extra["indexed_variant_detection"] = "source not recognised; chosen by replaying the witness"
+    FIXED["v"] = bool(variant)
     run.extra["indexed_variant"] = "fixed (physical/reference sizes agree, not symmetric)" if FIXED["v"] else "pinned"
     model_res = vlib.coqc(HAND_FILES[0])
     tm["model"] = round(_t.time() - T0, 1)      # re-checked on every run; the others in parallel below
@@ -980,10 +989,9 @@ _search_cache = {}
 
 
 def search_underestimate(run, case):
-    key = None if case is None else case.name
-    if key not in _search_cache:
-        _search_cache[key] = _search_underestimate(run, case if not _search_cache else None)
-    return _search_cache[key]
+    if "w" not in _search_cache:        # one search per run, shared by all broken obligations
+        _search_cache["w"] = _search_underestimate(run, case)
+    return _search_cache["w"]
 
 
 def _search_underestimate(run, case):
@@ -1018,5 +1026,7 @@ def _search_underestimate(run, case):
             continue
         td = true_degree(e, est, rng.randrange(10**6), g)
         if td is not None and td > est:
-            return {"input": str(e)[:3000], "real_estimate": est, "true_degree": td}
+            return {"input": str(e)[:3000], "real_estimate": est, "true_degree": td,
+                    "form_arguments": {str(t): repr(t.ufl_element())[:600] for t in terminals_of(e)
+                                       if isinstance(t, C.FormArgument)}}
     return None
